@@ -331,25 +331,48 @@ Proof.
     + discriminate.
 Qed.
 
-Theorem union_types_unified : forall P ls rs out,
-  unify_cols P ls rs = Some out ->
+Lemma unify_zip_unified : forall P ls rs out,
+  unify_zip P ls rs = Some out ->
   List.length out = Nat.min (List.length ls) (List.length rs) /\
   forall k l r o, nth_error ls k = Some l -> nth_error rs k = Some r -> nth_error out k = Some o -> unified P l r o.
 Proof.
   intros P ls. induction ls as [|l ls' IH]; intros rs out H.
-  - cbn [unify_cols] in H. injection H as H. subst out. split; [reflexivity|].
+  - cbn [unify_zip] in H. injection H as H. subst out. split; [reflexivity|].
     intros k l r o Hl. destruct k; discriminate.
   - destruct rs as [|r rs'].
-    + cbn [unify_cols] in H. injection H as H. subst out. split; [reflexivity|].
+    + cbn [unify_zip] in H. injection H as H. subst out. split; [reflexivity|].
       intros k l0 r0 o _ Hr. destruct k; discriminate.
-    + cbn [unify_cols] in H. destruct (unify1 P l r) as [x|] eqn:E1; [|discriminate].
-      destruct (unify_cols P ls' rs') as [xs|] eqn:E2; [|discriminate].
+    + cbn [unify_zip] in H. destruct (unify1 P l r) as [x|] eqn:E1; [|discriminate].
+      destruct (unify_zip P ls' rs') as [xs|] eqn:E2; [|discriminate].
       injection H as H. subst out. destruct (IH rs' xs E2) as [Hlen Hnth].
       split; [cbn [List.length Nat.min]; rewrite Hlen; reflexivity|].
       intros k l0 r0 o Hl Hr Ho. destruct k as [|k'].
       * cbn [nth_error] in Hl, Hr, Ho. injection Hl as Hl. injection Hr as Hr. injection Ho as Ho. subst.
         apply unify1_unified. exact E1.
       * cbn [nth_error] in Hl, Hr, Ho. eapply Hnth; eassumption.
+Qed.
+
+(* the binder accepts a set operation only when both branches have the same number of columns, and the output
+   has that many columns *)
+Theorem union_arity_checked : forall P ls rs out,
+  unify_cols P ls rs = Some out ->
+  List.length ls = List.length rs /\ List.length out = List.length ls.
+Proof.
+  intros P ls rs out H. unfold unify_cols in H.
+  destruct (Nat.eqb (List.length ls) (List.length rs)) eqn:E; [|discriminate].
+  apply Nat.eqb_eq in E. split; [exact E|].
+  destruct (unify_zip_unified P ls rs out H) as [Hlen _]. rewrite Hlen, <- E. apply Nat.min_id.
+Qed.
+
+Theorem union_types_unified : forall P ls rs out,
+  unify_cols P ls rs = Some out ->
+  List.length ls = List.length rs /\ List.length out = List.length ls /\
+  forall k l r o, nth_error ls k = Some l -> nth_error rs k = Some r -> nth_error out k = Some o -> unified P l r o.
+Proof.
+  intros P ls rs out H. destruct (union_arity_checked P ls rs out H) as [A B].
+  split; [exact A|]. split; [exact B|].
+  unfold unify_cols in H. destruct (Nat.eqb (List.length ls) (List.length rs)); [|discriminate].
+  exact (proj2 (unify_zip_unified P ls rs out H)).
 Qed.
 
 Definition ex_l : list dtype := [{| d_id := 6; d_meta := [] |}].
@@ -366,13 +389,14 @@ Proof.
   eexists. split; [exact E|]. split; [reflexivity|]. eexists. split; [left; reflexivity|]. reflexivity.
 Qed.
 
-(* FULL strength would also demand equal column counts.  The binder does not check them (it zips): *)
-Theorem union_arity_checked_refuted :
-  exists P ls rs out, src_params = Some P /\ List.length ls <> List.length rs /\ unify_cols P ls rs = Some out.
+(* why the length test is needed: the loop alone (the binder before f82a4c29b) accepts unequal column counts *)
+Theorem union_zip_alone_accepts_unequal_arity :
+  exists P ls rs out, src_params = Some P /\ List.length ls <> List.length rs /\ unify_zip P ls rs = Some out /\
+                      unify_cols P ls rs = None.
 Proof.
   destruct (on_src_true _ check_src_true) as [P [E _]].
   exists P. exists [{| d_id := 6; d_meta := [] |}].
   exists [{| d_id := 6; d_meta := [] |}; {| d_id := 6; d_meta := [] |}].
   eexists. split; [exact E|]. split; [cbn [List.length]; lia|].
-  vm_compute. reflexivity.
+  split; vm_compute; reflexivity.
 Qed.
